@@ -104,7 +104,8 @@ class Engine:
         is_gen = any(isinstance(n, (ast.Yield, ast.YieldFrom)) for n in ast.walk(self.fn.node))
         if is_gen:
             st.env["__yield__"] = self.c.result_type.empty()
-        outs = self.block(self.fn.node.body, st)
+        body = self._apply_trusted_fragments(self.fn.node.body)
+        outs = self.block(body, st)
         for kind, s, payload in outs:
             if kind == NEXT:
                 kind, payload = RET, NONE
@@ -115,8 +116,9 @@ class Engine:
                 if nexit < 3:
                     self._nexit = nexit + 1
                     self.cover(s, f"exit{nexit}", self.fn.lineno)   # anti-vacuity: this exit's path condition must not be refutable
+                rl = s.ghost.get("retline", self.fn.end_lineno)
                 for nm, g in self.c.ensures_terms(self, s, payload):
-                    self.oblige(s, f"post.{nm}", g, kind="post")
+                    self.oblige(s, f"post.{nm}", g, rl, kind="post")
                     s.assume(g)      # clauses are cumulative: later ones may use earlier ones (each is proved first)
             elif kind == RAISE:
                 exc = payload
@@ -129,6 +131,44 @@ class Engine:
             else:
                 raise OutOfSubset(f"{kind} escapes function body")
         return self.obls
+
+    # ------------------------------------------------------------------ trusted fragments
+    def _apply_trusted_fragments(self, body):
+        """A contract may declare a contiguous run of top-level statements as a TRUSTED FRAGMENT: it is not
+        symbolically executed; its assigned locals are havocked and its declared postcondition assumed.  The
+        fragment is pinned by the SHA-256 of its normalised AST: any edit makes the function undecided."""
+        import hashlib
+        frs = getattr(self.c, "trusted_fragments", None) or []
+        if not frs:
+            return body
+        body = list(body)
+        for fr in frs:
+            texts = [ast.unparse(s).split("\n")[0] for s in body]
+            try:
+                a = texts.index(fr["first"])
+                b = max(k for k, t in enumerate(texts) if t == fr["last"])
+            except ValueError:
+                raise OutOfSubset(f"trusted fragment `{fr['name']}` not found (first/last statement changed)")
+            frag = body[a:b + 1]
+            sha = hashlib.sha256("\n".join(ast.dump(s, include_attributes=False) for s in frag).encode()).hexdigest()
+            self.notes.append(f"trusted fragment {fr['name']}: lines {frag[0].lineno}-{frag[-1].end_lineno} sha256 {sha}")
+            if fr.get("sha256") not in (None, sha):
+                raise OutOfSubset(f"trusted fragment `{fr['name']}` (lines {frag[0].lineno}-{frag[-1].end_lineno}) was edited: "
+                                  f"sha256 {sha[:16]} != pinned {fr['sha256'][:16]}; its assumed postcondition no longer applies")
+            marker = ast.Pass()
+            marker._fragment = fr
+            marker.lineno = frag[0].lineno
+            body[a:b + 1] = [marker]
+        return body
+
+    def _exec_fragment(self, fr, st):
+        for nm, ty in fr["assigns"].items():
+            v = ty.fresh(nm)
+            st.env[nm] = v
+            st.assume(ty.wf(v.t))
+        c = self.c.ctx(self, st)
+        for g in fr["ensures"](c):
+            st.assume(g)
 
     # ------------------------------------------------------------------ statements
     def block(self, stmts, st):
@@ -150,8 +190,8 @@ class Engine:
 
     def merge_states(self, states):
         # keep paths separate (simple and precise); duplicates are rare because functions are small.
-        if len(states) > 64:
-            raise OutOfSubset("path explosion (>64 live paths)")
+        if len(states) > 600:
+            raise OutOfSubset("path explosion (>600 live paths)")
         return states
 
     def stmt(self, s, st):
@@ -161,6 +201,9 @@ class Engine:
         return m(s, st)
 
     def s_Pass(self, s, st):
+        fr = getattr(s, "_fragment", None)
+        if fr is not None:
+            self._exec_fragment(fr, st)
         return [(NEXT, st, None)]
 
     def s_Expr(self, s, st):
@@ -203,6 +246,7 @@ class Engine:
         return [(NEXT, st, None)]
 
     def s_Return(self, s, st):
+        st.ghost["retline"] = s.lineno
         if s.value is None:
             return [(RET, st, NONE)]
         outs = []
@@ -259,9 +303,27 @@ class Engine:
             b.assume(z3.Not(c))
             self.narrow(s.test, a, True)
             self.narrow(s.test, b, False)
-            outs += self.block(s.body, a)
-            outs += self.block(s.orelse, b)
+            for br, blk in ((a, s.body), (b, s.orelse)):
+                n0 = len(self.obls)
+                try:
+                    outs += self.block(blk, br)
+                except OutOfSubset:
+                    # a construct outside the subset only matters if the branch can be taken at all
+                    if self._feasible(br):
+                        raise
+                    del self.obls[n0:]
+                    self.notes.append(f"infeasible branch at line {s.lineno} skipped (contains constructs outside the subset)")
         return outs
+
+    def _feasible(self, st):
+        sol = z3.Solver()
+        sol.set("timeout", 3000)
+        sol.set("smt.mbqi", False)
+        for ax in self.reg.axioms_for(self.c):
+            sol.add(ax)
+        for p in st.pc:
+            sol.add(p)
+        return sol.check() != z3.unsat
 
     def s_Try(self, s, st):
         if s.finalbody or s.orelse:
@@ -774,6 +836,9 @@ class Engine:
                 self.oblige(st, "mod_nonzero", b.t != 0, node.lineno, kind="safety")
                 return vint(_pymod(a.t, b.t))
             if isinstance(op, ast.Pow):
+                sa, sb = z3.simplify(a.t), z3.simplify(b.t)
+                if z3.is_int_value(sa) and z3.is_int_value(sb) and sb.as_long() >= 0:
+                    return vint(sa.as_long() ** sb.as_long())
                 return self.reg.int_pow(self, st, a, b, node)
             if isinstance(op, (ast.LShift, ast.BitOr, ast.BitAnd, ast.RShift)):
                 return self.reg.int_bitop(self, st, op, a, b, node)
